@@ -1,5 +1,118 @@
+(* C19/Examples.v — non-vacuity: concrete fonts and lookup lists meeting every
+   hypothesis of every theorem of Props.v, the theorems' conclusions evaluated
+   on them, and witnesses of the behaviour of the code before the repairs. *)
 From Coq Require Import List NArith ZArith Bool Arith Lia.
 From Gen Require Import C19.
-From C19 Require Import Model.
+From C19 Require Import Model Wf Protocol ProofsTotal.
 Import ListNotations.
+Import K.
 Local Open Scope N_scope.
+
+(* unicode tables: a few code points >= 128, everything else unclassified *)
+Definition U0 : uclass :=
+  mkU (fun c => (c =? 233) || (c =? 937)) (fun _ => false) (fun c => c =? 160)
+      (fun c => (c =? 233) || (c =? 937) || (c =? 8594)).
+
+(* .notdef A B C f_i uni0041 (no name) (no name) e-acute x ; cmap: quote->1 A->1 B->2 b->2 U+00A0->3 e-acute->8 *)
+Definition F0 : font :=
+  mkFont [[46;110;111;116;100;101;102]; [65]; [66]; [67]; [102;95;105];
+          [117;110;105;48;48;52;49]; []; []; [233]; [120]]
+         [(34, 1); (65, 1); (66, 2); (98, 2); (160, 3); (233, 8)].
+(* a font without glyph names and without mappings *)
+Definition F1 : font := mkFont (repeat [] 12) [].
+
+Example F0_wf : font_wf U0 F0 = true.  Proof. vm_compute. reflexivity. Qed.
+Example F1_wf : font_wf U0 F1 = true.  Proof. vm_compute. reflexivity. Qed.
+Example F0_total_ok : total_font_ok F0.
+Proof. split; [vm_compute; discriminate|repeat constructor; cbn; discriminate]. Qed.
+
+(* GSUB lookups of every modelled type, with ranges, strings, names, numbers
+   and all three flags *)
+Definition LG : list lookup :=
+  [ mkLookup 1 14 [Gsub1_1 [1; 2; 3; 6] 3];
+    mkLookup 1 0  [Gsub1_2 [1; 2; 3; 4; 8] [5; 6; 7; 0; 1]];
+    mkLookup 2 4  [Gsub2_1 [1; 7] [[1; 2]; [9; 6; 2]]];
+    mkLookup 3 8  [Gsub3_1 [2; 8] [[1; 2; 3]; []]];
+    mkLookup 4 2  [Gsub4_1 [1; 2; 3] [[([2; 8], 4); ([], 5)]; [([], 6)]; [([7], 7)]]] ].
+Definition LP : list lookup :=
+  [ mkLookup 1 6 [Gpos1_1 [1; 2; 6] (Some (mkV 0 (-10) 32767)); Gpos1_2 [2; 9] [None; Some (mkV (-32768) 0 0)]];
+    mkLookup 1 0 [Gpos1_2 [8] [Some (mkV 1 2 3)]; Gpos1_1 [] None] ].
+
+Example LG_wf : forallb (gsub_lookup_wf F0) LG = true.  Proof. vm_compute. reflexivity. Qed.
+Example LP_wf : forallb (gpos_lookup_wf F0) LP = true.  Proof. vm_compute. reflexivity. Qed.
+Example LG_wf1 : forallb (gsub_lookup_wf F1) LG = true.  Proof. vm_compute. reflexivity. Qed.
+
+(* the round trip, computed *)
+Example LG_roundtrip : M_parse U0 F0 (M_explain_gsub U0 F0 LG) = POk LG.
+Proof. vm_compute. reflexivity. Qed.
+Example LP_roundtrip : M_parse U0 F0 (M_explain_gpos U0 F0 LP) = POk LP.
+Proof. vm_compute. reflexivity. Qed.
+Example LG_roundtrip_unnamed : M_parse U0 F1 (M_explain_gsub U0 F1 LG) = POk LG.
+Proof. vm_compute. reflexivity. Qed.
+
+(* the description contains what the statement talks about: flags, a range
+   with numeric ends, a quoted string, a name *)
+Example LG_text_unnamed_range :
+  firstn 34 (M_explain_gsub U0 F1 LG)
+  = [71;83;85;66;49;58;32;45;109;97;114;107;115;32;45;98;97;115;101;32;45;108;105;103;115;32;49;45;32;51;32;45;62;32].
+  (* "GSUB1: -marks -base -ligs 1- 3 -> " *)
+Proof. vm_compute. reflexivity. Qed.
+
+(* ---- the code before the repairs, replayed on the parser model ---- *)
+Import String.
+Local Open Scope string_scope.
+Definition txt (s : String.string) : list N := s2l s.
+
+(* 5.A-19: explainFlags wrote "-lig"; the parser knows "ligs" only *)
+Example old_flag_name_rejected :
+  M_parse U0 F0 (txt "GSUB1: -lig A -> B
+") = PErr 1.
+Proof. vm_compute. reflexivity. Qed.
+Example new_flag_name_accepted :
+  M_parse U0 F0 (txt "GSUB1: -ligs A -> B
+") = POk [mkLookup 1 4 [Gsub1_1 [1] 1]].
+Proof. vm_compute. reflexivity. Qed.
+
+(* ranges between glyphs without names were written "3-5": the lexer reads "-5" as one integer *)
+Example old_numeric_range_rejected :
+  M_parse U0 F1 (txt "GSUB1: 3-5 -> 7-9
+") = PErr 1.
+Proof. vm_compute. reflexivity. Qed.
+Example old_numeric_range_tokens :
+  map ttyp (M_lex U0 (txt "3-5")) = [TInt; TInt; TEOF].
+Proof. vm_compute. reflexivity. Qed.
+
+(* GSUB4 mappings were abbreviated to ranges, which the ligature syntax does not have *)
+Example old_gsub4_range_rejected :
+  M_parse U0 F0 (txt "GSUB4: A-C -> B-f_i
+") = PErr 1.
+Proof. vm_compute. reflexivity. Qed.
+
+(* %q of a non-printable rune: " " is read back as the runes u 0 0 a 0 *)
+Example old_nonprintable_quote_rejected :
+  M_parse U0 F0 (txt "GSUB1: "" "" -> A
+") = PErr 1.
+Proof. vm_compute. reflexivity. Qed.
+(* now glyph 3 (mapped from U+00A0 only) is written by name *)
+Example nonprintable_written_by_name :
+  M_explain_gsub U0 F0 [mkLookup 1 0 [Gsub1_1 [3] 1]] = txt "GSUB1: C -> f_i
+".
+Proof. vm_compute. reflexivity. Qed.
+
+(* errors carry the line of the offending position, also at the end of the input *)
+Example error_line_at_end :
+  M_parse U0 F0 (txt "
+
+GSUB1: A") = PErr 3.
+Proof. vm_compute. reflexivity. Qed.
+Example error_line_lexer :
+  M_parse U0 F0 (txt "
+GSUB1: A -> !") = PErr 2.
+Proof. vm_compute. reflexivity. Qed.
+
+(* the protocol model is not vacuous: a complete run of the repaired code *)
+Example protocol_run : reach false (init 1) (mkP LClosed HNone PDone).
+Proof.
+  unfold init. eapply r_step; [apply s_item|]. eapply r_step; [apply s_item|].
+  eapply r_step; [apply s_return|]. eapply r_step; [apply s_lclose|]. apply r_refl.
+Qed.
